@@ -86,7 +86,7 @@ struct Ctx {
   bool unlock_pending[kMaxObj] = {false, false};
   CaseInfo *info = nullptr;
   std::string err;
-  bool cleaned = false;
+  bool cleaned = false, requeued = false;
   int idle_checks = 0;
   void fail(const std::string &m) { if (err.empty()) err = m; }
 };
@@ -133,7 +133,10 @@ void do_cancel(Ctx &c, int by, int t) {
       if (T.call == C_JOIN) c.info->cls("cancel_of_joiner");
       if (T.call == C_BWAIT || T.call == C_CWAIT) c.info->cls("cancel_of_bcast_or_cond_waiter");
     }
-    if (!T.started) c.info->cls("cancel_of_unstarted_routine");
+    if (!T.started) {
+      c.info->cls("cancel_of_unstarted_routine");
+      if (waiters(c, C_JOIN, t, by) >= 1) { c.info->cls("cancel_of_unstarted_join_target"); c.info->cls(by < 0 ? "cancel_of_unstarted_join_target_by_main" : "cancel_of_unstarted_join_target_by_routine"); }
+    }
   }
   c.sch->cancel(T.tok);
 }
@@ -277,9 +280,12 @@ bool exec_step(Ctx &c, int r, Scheduler &sch, const Step &st) {
       bool blocked = end_call(c, R);
       bool canceled = sch.isCanceled();
       if (ok && R.must_fail_seq == sq) c.fail(fmt("routine %d was cancelled while suspended in join(%d), but the call returned success", r, t));
-      if (ok && !(T.created && T.ended) && !R.tainted) c.fail(fmt("join(%d) returned true to routine %d although the target has not finished", t, r));
-      if (!ok && !canceled && blocked && T.ended) c.fail(fmt("join(%d) returned false to routine %d although the target finished while it waited and the joiner was not cancelled", t, r));
+      // a target that was cancelled before it ever ran may be run once (cancelled) or removed directly: the value join() then reports is left free
+      bool removed_unstarted = T.created && T.cancel_req && !T.started;
+      if (ok && !(T.created && T.ended) && !removed_unstarted && !R.tainted) c.fail(fmt("join(%d) returned true to routine %d although the target has not finished", t, r));
+      if (!ok && !canceled && blocked && T.ended && !T.cancel_req) c.fail(fmt("join(%d) returned false to routine %d although the target finished while it waited and neither of them was cancelled", t, r));
       if (ok && blocked) c.info->cls("join_blocked_until_target_finished");
+      if (blocked && T.cancel_req && !canceled) c.info->cls("join_released_by_cancel_of_target");
       if (ended_before) c.info->cls(ok ? "join_of_finished_target_true" : "join_of_finished_target_false");
       if (!ok && !canceled) { c.info->cls("join_refused"); return true; }
       return ok; }
@@ -316,7 +322,17 @@ void quiescence(Ctx &c, const char *when) {
       case C_ACQ: if (c.count[R.obj] > 0) c.fail(fmt("%s: lost wake-up: routine %d is suspended in acquire(s%d) although the count is %d", when, r, R.obj, c.count[R.obj])); break;
       case C_BWAIT: if (R.owed_b) c.fail(fmt("%s: lost wake-up: routine %d was inside bcast.wait when post() ran and is still suspended", when, r)); break;
       case C_CWAIT: if (R.owed_c) c.fail(fmt("%s: lost wake-up: routine %d was waiting on the condition when it became satisfied and is still suspended", when, r)); break;
-      case C_JOIN: if (c.R[R.obj].ended) c.fail(fmt("%s: routine %d is still suspended in join(%d) although the target has finished", when, r, R.obj)); break;
+      case C_JOIN: {
+        RState &T = c.R[R.obj];
+        if (T.ended) c.fail(fmt("%s: routine %d is still suspended in join(%d) although the target has finished", when, r, R.obj));
+        else if (T.created && T.cancel_req && !T.started) {
+          // The target was cancelled before it ever ran and, the loop being idle, has not run since.  Whether it still exists is only
+          // observable through the API: cancel() of a live suspended routine succeeds (harmless here: it is cancelled already), cancel()
+          // of a removed one fails.  A removed target is gone for good, so its joiner must not be left suspended.
+          if (!c.sch->cancel(T.tok)) c.fail(fmt("%s: routine %d is still suspended in join(%d) although the target was cancelled before it started and no longer exists", when, r, R.obj));
+          else c.requeued = true;   // still alive and made ready again: let it run, then check again
+        }
+        break; }
       default: break;
     }
   }
@@ -370,7 +386,7 @@ struct Driver {
         ++c.marks;
         if (T.started && !T.ended && T.call != NONE && T.call != C_WAIT && T.call != C_YIELD) { T.tainted = true; c.info->cls("main_resume_of_routine_blocked_in_primitive"); }
         else if (T.started && !T.ended && T.call == C_WAIT) c.info->cls("main_resume_of_waiting_routine");
-        else if (!T.started) c.info->cls("main_resume_starts_routine");
+        else if (!T.started) { c.info->cls("main_resume_starts_routine"); if (waiters(c, C_JOIN, st.a % c.nr) >= 1) c.info->cls("main_resume_starts_join_target"); }
         c.sch->resume(T.tok);
         return false; }
       case MCANCEL: do_cancel(c, -1, st.a % c.nr); return false;
@@ -391,8 +407,8 @@ struct Driver {
       quiet = progress ? 0 : quiet + 1;
       if (++passes > kMaxPasses) { c.fail("the loop did not become idle within the pass bound although all scripts are finite"); quiet = 2; }
       if (quiet >= 2) {
-        if (phase == 1) { quiescence(c, "loop idle"); phase = 0; }
-        else if (phase == 3) { quiescence(c, "final idle"); do_cleanup(c); start_idle(4); }
+        if (phase == 1) { quiescence(c, "loop idle"); if (c.requeued) { c.requeued = false; quiet = 0; } else phase = 0; }
+        else if (phase == 3) { quiescence(c, "final idle"); if (c.requeued) { c.requeued = false; quiet = 0; } else { do_cleanup(c); start_idle(4); } }
         else { done = true; }
       }
     } else if (phase == 2) {
@@ -455,7 +471,7 @@ std::string run(const Scenario &s, CaseInfo &info) {
   info.cls_if(c.idle_checks >= 3, "three_or_more_idle_checks");
   bool nt = false;
   for (auto p : info.classes)
-    if (!strcmp(p, "chan_two_waiters_two_posts") || !strcmp(p, "sem_two_waiters_two_posts") || !strcmp(p, "mutex_retaken_before_woken_waiter_ran") || !strcmp(p, "cancel_of_queued_waiter")) nt = true;
+    if (!strcmp(p, "chan_two_waiters_two_posts") || !strcmp(p, "sem_two_waiters_two_posts") || !strcmp(p, "mutex_retaken_before_woken_waiter_ran") || !strcmp(p, "cancel_of_queued_waiter") || !strcmp(p, "cancel_of_unstarted_join_target")) nt = true;
   info.nontrivial = nt;
   // ---- tear down (cleanup() has run; nothing is left inside the scheduler)
   for (int i = 0; i < kMaxObj; ++i) { c.ch[i].reset(); c.mx[i].reset(); c.sem[i].reset(); }
@@ -483,7 +499,7 @@ Scenario expand(int64_t seed) {
   mk(CFG, {n, nch, nmx, nsem, pick({{5, 0}, {2, 1}, {1, 2}}), pick({{5, 0}, {2, 1}, {1, 2}}), rng(0, 1)});
   // theme: the primitive most routines of this case work on (so that waiters and posters meet)
   enum { T_CHAN, T_SEM, T_MUTEX, T_BCAST, T_COND, T_JOIN, T_MIX };
-  int theme = (int)pick({{5, T_CHAN}, {4, T_SEM}, {5, T_MUTEX}, {2, T_BCAST}, {3, T_COND}, {3, T_JOIN}, {4, T_MIX}});
+  int theme = (int)pick({{5, T_CHAN}, {4, T_SEM}, {5, T_MUTEX}, {2, T_BCAST}, {3, T_COND}, {5, T_JOIN}, {4, T_MIX}});
   auto obj = [&]() -> int64_t { return pick({{5, 0}, {1, 1}}); };
   auto other = [&](int r) -> int64_t { int64_t t = rng(0, n - 2); return t >= r ? t + 1 : t; };
   auto yields = [&](int r, int64_t k) { for (int64_t i = 0; i < k; ++i) mk(YIELD, {r}); };
@@ -494,8 +510,29 @@ Scenario expand(int64_t seed) {
   bool planned = (theme == T_CHAN || theme == T_SEM) && n >= 3 && rng(0, 1);
   int pw = planned ? (int)pick({{3, 2}, {1, 3}}) : 0; if (pw > n - 1) pw = n - 1;
   int64_t po = obj();
+  // planned join shape: routine 0 (and sometimes routine 1) joins a target that has not started yet — created suspended by main
+  // or by the joiner itself, or created run_now and still queued behind the joiner — and the target is then cancelled by a
+  // routine in the same or a later pass, cancelled or resumed by main, or left alone for ever
+  bool pjoin = theme == T_JOIN && n >= 3 && rng(0, 2) != 0;
+  int pj_t = n - 1, pj_create = 0, pj_rn = 0, pj_who = 0;
+  if (pjoin) {
+    pj_create = (int)pick({{3, 0}, {2, 1}, {2, 2}});   // 0 = main creates it suspended, 1 = the joiner creates it suspended, 2 = the joiner creates it run_now (still queued)
+    modes[pj_t] = pj_create == 0 ? 1 : 2; late = 1; late_r = pj_t; pj_rn = pj_create == 2;
+    pj_who = pj_create == 2 ? (int)pick({{5, 1}, {1, 4}}) : (int)pick({{4, 1}, {4, 2}, {2, 3}, {1, 4}});   // 1 = routine cancels, 2 = main cancels, 3 = main resumes, 4 = nobody
+  }
   for (int r = 0; r < n; ++r) {
     mk(RT, {r, modes[r]});
+    if (pjoin && r == 0) {
+      if (pj_create) mk(CREATE, {r, pj_t, pj_rn});
+      mk(JOIN, {r, pj_t});
+      if (rng(0, 2) == 0) mk(YIELD, {r});
+      continue;
+    }
+    if (pjoin && r == 1 && (pj_who == 1 || rng(0, 3) == 0)) {
+      if (pj_who == 1) { yields(r, pj_rn ? 0 : pick({{3, 0}, {3, 1}, {1, 2}})); mk(CANCEL, {r, pj_t}); if (rng(0, 3) == 0) mk(JOIN, {r, 0}); }
+      else mk(JOIN, {r, pj_t});   // second joiner: refused
+      continue;
+    }
     if (planned && r < pw) {
       mk(theme == T_CHAN ? RECV : ACQ, {r, po});
       if (rng(0, 3) == 0) mk(theme == T_CHAN ? RECV : ACQ, {r, po});
@@ -567,6 +604,11 @@ Scenario expand(int64_t seed) {
   }
   // main-context script
   auto mrun = [&] { mk(MRUN, {}); };
+  if (pjoin && (pj_who == 2 || pj_who == 3)) {
+    if (rng(0, 3)) mrun(); else mk(MPASS, {rng(0, 2)});
+    mk(pj_who == 2 ? MCANCEL : MRESUME, {pj_t});
+    if (rng(0, 3)) mrun();
+  }
   switch (pick({{5, 0}, {2, 1}, {1, 2}})) { case 0: mrun(); break; case 1: mk(MPASS, {rng(0, 2)}); break; default: break; }
   int na = (int)pick({{2, 0}, {3, 1}, {3, 2}, {2, 4}, {1, 7}});
   for (int i = 0; i < na; ++i) {
@@ -592,7 +634,7 @@ SubDef def = [] {
   SubDef d; d.name = "coroutines";
   d.op_names.assign(kOpNames, kOpNames + NOPS);
   d.op_arity.assign(kArity, kArity + NOPS);
-  d.nt_rule = "two or more routines suspended on one channel / semaphore while two posts were issued before any of them ran, or a mutex re-taken between the unlock that woke a waiter and the waiter running, or a cancel of a routine queued in recv / lock / acquire";
+  d.nt_rule = "two or more routines suspended on one channel / semaphore while two posts were issued before any of them ran, or a mutex re-taken between the unlock that woke a waiter and the waiter running, or a cancel of a routine queued in recv / lock / acquire, or a cancel of a never-started routine while another routine is suspended in join() on it";
   d.run = run;
 #ifndef VERIF_ENGINE_FUZZ
   d.gen = [] {
